@@ -5,6 +5,7 @@ import json
 import numpy as np
 
 from harness.common import bitstr, rowsstr, exc_class, coq_bits, coq_list
+from harness import c20_extra as cx
 
 
 def letters(b):
@@ -47,7 +48,7 @@ def make_code_class():
 
         @property
         def n_k_d(self):
-            return (self._S.shape[1] // 2, len(self._X), None)
+            return (np.atleast_2d(self._S).shape[1] // 2, len(np.atleast_2d(self._X)), None)
 
         @property
         def label(self):
@@ -101,48 +102,101 @@ def run(ctx):
     UserCode = make_code_class()
     ctx.rule = ('valid codes from random symplectic transvections of the trivial [[n,k]] code (n<=%d, k=1..3), every '
                 'single-operator single-qubit corruption of a sample, swapped/dropped/duplicated logicals, unequal '
-                'X/Z counts, random matrices; nontrivial = k>=2 or a corruption that only the third check detects'
-                % ctx.pick(8, 10))
+                'X/Z counts, random matrices; the same operators presented as 1-d vectors wherever a property has a '
+                'single row (all 1d/2d combinations); medium and large codes from random Clifford circuits '
+                '(n up to %d, k up to 6, stabilizer lists of m rows up to %d incl. redundant products, m at and next '
+                'to powers of two) with minimal violations (exactly one anticommuting pair) at every pair of position '
+                'classes (first/middle/last rows, rows next to powers of two) and the same for stabilizer-logical and '
+                'logical-logical pairs; every validate() is repeated on the same object and must not modify its '
+                'operands; nontrivial = k>=2, a corruption that only the third check detects, a 1-d presentation, '
+                'or a code with >= 100 stabilizer rows' % (ctx.pick(8, 10), ctx.pick(600, 620), ctx.pick(513, 1025)))
+    import time
+    tm = {'start': time.time()}
     ctx.props_obligations()
+    tm['obligations'] = time.time()
     req, exp = [], []
 
+    def present(M, flag):
+        return M[0].copy() if flag == '1' else M
+
     def impl_validate(S, X, Z):
-        try:
-            UserCode(S, X, Z).validate()
-            return 'Ok'
-        except QecsimError as e:
-            return MSG.get(str(e), 'QecsimError:' + str(e))
-        except ValueError:
-            return 'ErrSplit'
-        except Exception as e:  # noqa
-            return 'ERR ' + exc_class(e)
+        """validate() on a fresh user code; twice on the same object; operands must be left alone"""
+        before = [np.array(M, copy=True) for M in (S, X, Z)]
+        code = UserCode(S, X, Z)
+        rs = []
+        for _ in range(2):
+            try:
+                code.validate()
+                rs.append('Ok')
+            except QecsimError as e:
+                rs.append(MSG.get(str(e), 'QecsimError:' + str(e)))
+            except ValueError:
+                rs.append('ErrSplit')
+            except Exception as e:  # noqa
+                rs.append('ERR ' + exc_class(e))
+        def rep():
+            if np.atleast_2d(S).size <= 4000:
+                return {'S': rowsstr(np.atleast_2d(before[0])), 'X': rowsstr(np.atleast_2d(before[1])),
+                        'Z': rowsstr(np.atleast_2d(before[2]))}
+            return {'S_hex': cx.hexrows(before[0]), 'X_hex': cx.hexrows(before[1]), 'Z_hex': cx.hexrows(before[2])}
+        if rs[0] != rs[1]:
+            ctx.violation('validate-repeat', 'validate() twice on the same code object gives different outcomes',
+                          dict(rep(), first=rs[0], second=rs[1]))
+        if not all(a.shape == np.shape(b) and np.array_equal(a, b) for a, b in zip(before, (S, X, Z))):
+            ctx.violation('validate-pure', 'validate() modified the operators of the code', rep())
+        return rs[0]
 
     kern = []
+    kern1d = []
+    state = {'big_replays': 0}
 
-    def one(S, X, Z, kind, nontriv):
-        r = impl_validate(S, X, Z)
-        req.append('validate %s %s %s' % (rowsstr(S), rowsstr(X), rowsstr(Z)))
+    def one(S, X, Z, kind, nontriv, shape='222', big=None):
+        """S, X, Z: 2-d matrices (the operator lists); shape: per property '1' = handed to validate() as a 1-d
+        vector (needs exactly one row), '2' = as a matrix; big: dict(n, k, m, how) for medium/large codes"""
+        r = impl_validate(present(S, shape[0]), present(X, shape[1]), present(Z, shape[2]))
+        if big is not None:
+            req.append('vfast %s %s %s' % (rowsstr(S), rowsstr(X), rowsstr(Z)))
+            key = ('big', big['n'], big['k'], big['m'], len(req), kind)
+        elif shape == '222':
+            req.append('validate %s %s %s' % (rowsstr(S), rowsstr(X), rowsstr(Z)))
+            key = req[-1]
+        else:
+            req.append('validate_nd %s %s %s %s' % (shape, rowsstr(S), rowsstr(X), rowsstr(Z)))
+            key = req[-1]
         exp.append(('validate', r))
-        key = req[-1]
         ctx.count(key, nontriv, kind, {'S': pt.bsf_to_pauli(S), 'X': pt.bsf_to_pauli(X), 'Z': pt.bsf_to_pauli(Z),
                                        'validate': r} if kind == 'corrupt-1q' and len(X) == 2 else None)
+
+        def replay(**kw):
+            if big is None:
+                d = {'S': rowsstr(S), 'X': rowsstr(X), 'Z': rowsstr(Z), 'presented (S,X,Z) 1d/2d': shape}
+            else:
+                d = {'n': big['n'], 'k': big['k'], 'stabilizer rows': big['m'], 'how': big['how'], 'kind': kind}
+                if state['big_replays'] < 6:   # full operators for the first few, to keep replays small
+                    state['big_replays'] += 1
+                    d.update({'encoding': 'one hex number per row, most significant bit = column 0 of the bsf row',
+                              'S_hex': cx.hexrows(S), 'X_hex': cx.hexrows(X), 'Z_hex': cx.hexrows(Z)})
+            d.update(kw)
+            return d
         if len(X) == len(Z):
-            c1, c2, c3 = conditions(S, X, Z)
+            c1, c2, c3 = cx.conditions_fast(S, X, Z)
+            if big is None and (c1, c2, c3) != conditions(S, X, Z):
+                raise RuntimeError('harness: the two letter-level evaluations of the code conditions disagree')
             want_ok = c1 and c2 and c3
             if want_ok != (r == 'Ok'):
                 ctx.violation('validate-iff', 'validate passes/raises against the code conditions',
-                              {'S': rowsstr(S), 'X': rowsstr(X), 'Z': rowsstr(Z), 'validate': r,
-                               'conditions': [c1, c2, c3]})
+                              replay(validate=r, conditions=[c1, c2, c3]))
             elif not want_ok:
                 first = 'ErrStab' if not c1 else ('ErrStabLog' if not c2 else 'ErrLog')
                 if r != first:
-                    ctx.violation('validate-which', 'wrong check reported', {'S': rowsstr(S), 'X': rowsstr(X),
-                                                                             'Z': rowsstr(Z), 'validate': r, 'want': first})
-        if len(kern) < 120 and S.shape[1] <= 16:
+                    ctx.violation('validate-which', 'wrong check reported', replay(validate=r, want=first))
+        if shape == '222' and big is None and len(kern) < 120 and S.shape[1] <= 16:
             kern.append((S, X, Z, r))
+        if shape != '222' and len(kern1d) < 40 and S.shape[1] <= 16:
+            kern1d.append((shape, S, X, Z, r))
         # the same operators through BasicCode (Pauli strings; cached matrices keyed on code equality):
         # equal operator sets in other orders occur throughout this history
-        if len(S) and len(X) and len(Z):
+        if shape == '222' and len(S) and len(X) and len(Z):
             ps, px, pz = (tuple(pt.bsf_to_pauli(M)) for M in (S, X, Z))
             bc = BasicCode(ps, px, pz)
             try:
@@ -154,14 +208,82 @@ def run(ctx):
                 r2 = 'ErrSplit'
             except Exception as e:  # noqa
                 r2 = 'ERR ' + exc_class(e)
-            rep = {'stabilizers': ps, 'logical_xs': px, 'logical_zs': pz, 'BasicCode.validate': r2, 'matrix validate': r}
+            def rep():
+                if big is None:
+                    return {'stabilizers': ps, 'logical_xs': px, 'logical_zs': pz, 'BasicCode.validate': r2,
+                            'matrix validate': r}
+                return replay(**{'BasicCode.validate': r2, 'matrix validate': r})
             if r2 != r:
                 ctx.violation('basiccode-validate', 'BasicCode built from the same operators validates differently '
-                              '(after the earlier codes of this run)', rep)
+                              '(after the earlier codes of this run)', rep())
             if not (np.array_equal(bc.stabilizers, S) and np.array_equal(bc.logical_xs, X)
                     and np.array_equal(bc.logical_zs, Z) and np.array_equal(bc.logicals, np.vstack([X, Z]))):
-                ctx.violation('basiccode-matrices', 'BasicCode matrices are not the bsf of the strings it was given, in order', rep)
+                ctx.violation('basiccode-matrices', 'BasicCode matrices are not the bsf of the strings it was given, in order', rep())
         return r
+
+    def shapes_for(S, X, Z):
+        """all 1d/2d presentations other than all-2d"""
+        opts = [('12' if len(M) == 1 else '2') for M in (S, X, Z)]
+        return [a + b + c for a in opts[0] for b in opts[1] for c in opts[2] if a + b + c != '222']
+
+    # ---- medium and large codes first: their model requests run in parallel engine processes meanwhile
+    import concurrent.futures
+    big_specs = []   # (n, k, m, lite)
+
+    def near(b):
+        return rng.choice((b - 1, b, b + 1))
+    for _ in range(ctx.pick(12, 60)):
+        n = rng.randint(12, 64)
+        k = rng.randint(1, min(6, n - 4))
+        m = rng.choice((n - k, near(16), near(32), near(64), near(128), rng.randint(2, 160)))
+        big_specs.append((n, k, m, False))
+    if ctx.quick:
+        big_specs += [(rng.randint(100, 140), rng.randint(1, 3), m, False) for m in (255, 256, 257)]
+        big_specs += [(rng.randint(100, 160), rng.randint(1, 4), rng.randint(258, 400), False),
+                      (rng.randint(100, 120), rng.randint(1, 2), 513, True),
+                      (rng.randint(100, 120), rng.randint(1, 2), rng.choice((511, 512)), True)]
+        n = rng.randint(280, 320)
+        k = rng.randint(1, 4)
+        big_specs.append((n, k, n - k, False))
+        n = rng.randint(560, 600)
+        k = rng.randint(1, 4)
+        big_specs.append((n, k, n - k, True))
+    else:
+        for b in (128, 256, 512):
+            big_specs += [(rng.randint(100, 160), rng.randint(1, 4), m, False) for m in (b - 1, b, b + 1)]
+        big_specs += [(rng.randint(100, 110), rng.randint(1, 2), m, True) for m in (1023, 1024, 1025)]
+        for _ in range(14):
+            n = rng.randint(100, 200)
+            k = rng.randint(1, 6)
+            big_specs.append((n, k, rng.choice((n - k, rng.randint(130, 700), near(256), rng.randint(258, 511))), False))
+        for _ in range(4):
+            n = rng.randint(200, 400)
+            k = rng.randint(1, 6)
+            big_specs.append((n, k, n - k, False))
+        for i in range(3):
+            n = rng.randint(450, 620)
+            k = rng.randint(1, 6)
+            big_specs.append((n, k, n - k, i > 0))
+    big_lo = len(req)
+    for (n, k, m, lite) in big_specs:
+        bc_ = cx.BigCode(rng, n, k, m)
+        for (kind, S2, X2, Z2, how) in bc_.variants(rng, lite):
+            one(S2, X2, Z2, kind if m >= 100 else kind.replace('big-', 'medium-'), m >= 100 or k >= 2,
+                big={'n': n, 'k': k, 'm': m, 'how': how})
+    big_hi = len(req)
+    tm['big impl'] = time.time()
+    ctx.extra['big_codes'] = {'codes': len(big_specs), 'validate_calls': big_hi - big_lo,
+                              'max_n': max(s[0] for s in big_specs), 'max_rows': max(s[2] for s in big_specs)}
+    # longest-first distribution of the large requests over engine processes
+    nworkers = ctx.pick(6, 8)
+    order = sorted(range(big_lo, big_hi), key=lambda i: -len(req[i]) * req[i].count(','))
+    loads, bins = [0] * nworkers, [[] for _ in range(nworkers)]
+    for i in order:
+        w = loads.index(min(loads))
+        bins[w].append(i)
+        loads[w] += len(req[i]) * (req[i].count(',') + 1)
+    pool = concurrent.futures.ThreadPoolExecutor(max_workers=nworkers)
+    futures = [(b, pool.submit(ctx.model, 'c20', [req[i] for i in b], 3000)) for b in bins if b]
 
     nmax = ctx.pick(8, 10)
     for it in range(ctx.pick(250, 2500)):
@@ -169,12 +291,18 @@ def run(ctx):
         k = rng.randint(1, min(3, n - 1))
         S, X, Z = random_valid(rng, n, k)
         one(S, X, Z, 'valid', k >= 2)
-        # logicals order
-        L = UserCode(S, X, Z).logicals
-        if not np.array_equal(L, np.vstack([X, Z])):
-            ctx.violation('logicals-order', 'logicals is not Xs stacked above Zs', {'X': rowsstr(X), 'Z': rowsstr(Z)})
-        req.append('logicals %s %s' % (rowsstr(X), rowsstr(Z)))
-        exp.append(('logicals', rowsstr(L)))
+        shapes = shapes_for(S, X, Z)
+        for sh in shapes:
+            one(S, X, Z, 'valid-1d', True, shape=sh)
+        # logicals order (also when the logical operators are handed over as vectors)
+        for sh in ['222'] + [s for s in shapes if s[0] == '2']:
+            L = UserCode(S, present(X, sh[1]), present(Z, sh[2])).logicals
+            if not (L.shape == (2 * k, 2 * n) and np.array_equal(L, np.vstack([X, Z]))):
+                ctx.violation('logicals-order', 'logicals is not Xs stacked above Zs',
+                              {'X': rowsstr(X), 'Z': rowsstr(Z), 'presented (S,X,Z) 1d/2d': sh})
+            req.append('logicals %s %s' % (rowsstr(X), rowsstr(Z)))
+            exp.append(('logicals', rowsstr(L)))
+            ctx.count(('logicals', req[-1], sh), sh != '222', 'logicals')
         # every single-operator single-qubit corruption (sampled codes), else a few
         ops = [('S', i) for i in range(n - k)] + [('X', i) for i in range(k)] + [('Z', i) for i in range(k)]
         full = it % 10 == 0
@@ -190,6 +318,8 @@ def run(ctx):
                 M[o[1], n + q] ^= 1
             c = conditions(S2, X2, Z2)
             one(S2, X2, Z2, 'corrupt-1q', c[0] and c[1] and not c[2])
+            if shapes and (full or rng.random() < 0.5):
+                one(S2, X2, Z2, 'corrupt-1q-1d', True, shape=rng.choice(shapes))
         # structural corruptions
         if k >= 2:
             X3 = X.copy()
@@ -197,6 +327,10 @@ def run(ctx):
             one(S, X3, Z, 'swap-logical', True)
             one(S, X, np.vstack([Z[0], Z[0], Z[2:]]) if k > 2 else np.vstack([Z[0], Z[0]]), 'dup-logical', True)
         one(S, Z, X, 'xz-exchanged', k >= 2)
+        if shapes:
+            one(S, Z, X, 'xz-exchanged-1d', True, shape=rng.choice(shapes))
+            one(S, X, X, 'same-logical-1d', True, shape=rng.choice(shapes))
+            one(S, np.zeros_like(X), Z, 'identity-logical-1d', True, shape=rng.choice(shapes))
         one(np.vstack([S, S[0]]), X, Z, 'dup-stabilizer', False)
         if n - k >= 2:
             one(S[1:], X, Z, 'drop-stabilizer', False)
@@ -205,6 +339,8 @@ def run(ctx):
             one(S, X, Z[:0].reshape(0, 2 * n), 'unequal-xz', True)  # even total, k Xs and no Zs
         Sr = np.array([[rng.randint(0, 1) for _ in range(2 * n)] for _ in range(n - k)])
         one(Sr, X, Z, 'random-stabs', False)
+        if shapes:
+            one(Sr, X, Z, 'random-stabs-1d', True, shape=rng.choice(shapes))
 
     # library basic codes, BasicCode defaults
     for code in (FiveQubitCode(), SteaneCode()):
@@ -246,7 +382,16 @@ def run(ctx):
             ctx.violation('decode-result-guard', 'DecodeResult constructible iff success or recovery given fails',
                           {'pattern': pat, 'constructed': r})
 
-    out = ctx.model('c20', req)
+    tm['small impl'] = time.time()
+    rest = [i for i in range(len(req)) if not big_lo <= i < big_hi]
+    out = [None] * len(req)
+    for i, o in zip(rest, ctx.model('c20', [req[i] for i in rest])):
+        out[i] = o
+    for b, f in futures:
+        for i, o in zip(b, f.result()):
+            out[i] = o
+    pool.shutdown()
+    tm['model'] = time.time()
     for (fn, impl), m, line in zip(exp, out, req):
         ctx.cmp(fn, line[:600], impl, m)
 
@@ -255,14 +400,21 @@ def run(ctx):
         def mat(M):
             return coq_list([coq_bits(row.tolist()) for row in M])
         items.append('(vres_eqb (validate (mkCode %s %s %s)) V%s)' % (mat(S), mat(X), mat(Z), r))
+    for (sh, S, X, Z, r) in kern1d:
+        def arr(M, f):
+            return '(A1 %s)' % coq_bits(M[0].tolist()) if f == '1' else '(A2 %s)' % coq_list([coq_bits(row.tolist()) for row in M])
+        items.append('(vres_eqb (validate_nd %s %s %s) V%s)' % (arr(S, sh[0]), arr(X, sh[1]), arr(Z, sh[2]), r))
     text = ('From Coq Require Import List Bool Arith NArith.\nFrom QV Require Import Core.Bits Core.Pauli Core.Symp '
-            'Core.Code.\nImport ListNotations.\n'
+            'Core.Code Core.CodeNd.\nImport ListNotations.\n'
             'Definition vres_eqb (a b : vresult) : bool := match a, b with VOk, VOk | VErrStab, VErrStab | '
             'VErrStabLog, VErrStabLog | VErrSplit, VErrSplit | VErrLog, VErrLog => true | _, _ => false end.\n'
             'Definition checks : list bool :=\n [' + ';\n  '.join(items) + '].\n'
             'Example corr : forallb (fun b => b) checks = true.\nProof. vm_compute. reflexivity. Qed.\n')
     ctx.kernel_cases('sample', text)
     ctx.extra['kernel_cases'] = len(items)
+    tm['kernel shard'] = time.time()
+    ks = list(tm)
+    ctx.extra['phase_seconds'] = {b: round(tm[b] - tm[a], 1) for a, b in zip(ks, ks[1:])}
 
 
 def replay(path):
